@@ -186,6 +186,8 @@ CHECKS_FOR = [
     ('src/query', ['C03', 'C09', 'C14', 'C17']),
     ('src/goal', ['C06', 'C05', 'C14']),
     ('src/user', ['C22']),
+    ('src/lresult', ['C03', 'C14', 'C20']),
+    ('src/lvalue', ['C21', 'C14', 'C03']),
     ('src/', ['C06', 'C02', 'C16', 'C03']),
 ]
 
@@ -213,8 +215,26 @@ def survivors():
     return [m for m in muts if st.get(m['id']) == 'survivor']
 
 
+def sampled():
+    """Survivors that go to the kill stage: the debugger is outside the properties; at most CAP per file
+    (evenly spaced), because bound-arithmetic files yield dozens of near-identical mutants."""
+    by = {}
+    for m in survivors():
+        if m['file'].startswith('src/debugger'):
+            continue
+        by.setdefault(m['file'], []).append(m)
+    out = []
+    for f, ms in sorted(by.items()):
+        cap = 24 if f.startswith('macros') else (18 if 'stream' in f else 12)
+        if len(ms) > cap:
+            step = len(ms) / float(cap)
+            ms = [ms[int(i * step)] for i in range(cap)]
+        out.extend(ms)
+    return out
+
+
 def kill(suffix, k, n, tier='quick'):
-    sv = survivors()
+    sv = sampled()
     krepo = '/tmp/krepo' + suffix
     kv = '/tmp/kv' + suffix
     res_path = os.path.join(OUT, 'kill-%d.jsonl' % k)
@@ -231,7 +251,7 @@ def kill(suffix, k, n, tier='quick'):
             continue
         killed_by = None
         log = []
-        for c in checks_for(m['file']):
+        for c in checks_for(m['file'])[:4]:
             code, out = sh('./check %s %s 2>&1 | grep -E "verdict=|monitor=|INCONCLUSIVE" | head -4 | cut -c1-300' % (c, tier), cwd=kv, timeout=2400, env=env)
             log.append((c, out.strip()[:700]))
             if 'verdict=violated' in out:
@@ -254,5 +274,7 @@ if __name__ == '__main__':
         print(Counter(st.values()))
         for m in survivors():
             print(m['id'], '%s:%d' % (m['file'], m['line'] + 1), '|', m['old'].strip()[:90], '=>', m['new'].strip()[:90])
+    elif cmd == 'sampled':
+        print(len(sampled()))
     elif cmd == 'kill':
         kill(sys.argv[2], int(sys.argv[3]), int(sys.argv[4]), sys.argv[5] if len(sys.argv) > 5 else 'quick')
